@@ -984,6 +984,8 @@ impl<'a> Parser<'a> {
     };
 
     let previous = mem::replace(&mut self.fun_kind, FunKind::Fun);
+    // like a function a lambda starts outside of any loop
+    let loop_depth = mem::replace(&mut self.loop_depth, 0);
     let lambda = self.fun_body(BlockReturn::Can).map(|body| {
       self.atom_expr(Primary::Lambda(self.node(Fun::new(
         self.let_name.clone(),
@@ -993,6 +995,7 @@ impl<'a> Parser<'a> {
       ))))
     });
 
+    self.loop_depth = loop_depth;
     self.fun_kind = previous;
     lambda
   }
@@ -1348,9 +1351,21 @@ impl<'a> Parser<'a> {
       return self.error_current(&format!("Expected '(' after {} name.", self.fun_kind));
     }
 
-    let loop_depth = self.loop_depth;
-    self.loop_depth = 0;
+    // a function starts outside of any loop, the enclosing depth comes back
+    // however the parse of the function ends
+    let loop_depth = mem::replace(&mut self.loop_depth, 0);
+    let fun = self.function_signature_and_body(name, type_params, block_return);
+    self.loop_depth = loop_depth;
+    fun
+  }
 
+  /// Parse the parameters, signature and block of a function
+  fn function_signature_and_body(
+    &mut self,
+    name: Token<'a>,
+    type_params: Vec<'a, TypeParam<'a>>,
+    block_return: BlockReturn,
+  ) -> ParseResult<Fun<'a>> {
     // parse function parameters
     let call_params = self.call_params(TokenKind::RightParen)?;
     let call_sig = self.call_signature(call_params, type_params)?;
@@ -1359,17 +1374,14 @@ impl<'a> Parser<'a> {
       return self.error_current(&format!("Expected '{{' after {} signature.", self.fun_kind));
     }
 
-    let fun = self.block(block_return).map(|body| {
+    self.block(block_return).map(|body| {
       Fun::new(
         Some(name),
         call_sig,
         self.table(),
         FunBody::Block(self.node(body)),
       )
-    });
-
-    self.loop_depth = loop_depth;
-    fun
+    })
   }
 
   /// Parse a method declaration and body
